@@ -9,7 +9,8 @@
 // stdin : <seed> <feat> <nbody> <nmesh> <ntex> <flags> <reps>      flags: 1 = length ranges, 2 = hfield,
 //         4 = builtin meshes, 8 = start with usethread off, 16 = delayed actuators (history), 32 = muscle rig (length ranges of
 //         the muscles go through the pool under the default LRopt.mode)
-// stdout: CASE i / lines "CMP <what> <0|1> <detail>" and "STATE <what> <0|1> <detail>" / END <OK|DIFF|NOCOMPILE>
+// stdout: CASE i / lines "CMP <what> <0|1> <detail>" and "STATE <what> <0|1> <detail>" / END <OK|DIFF|REJECTED|REJDIFF>
+//         (REJ <what> <0|1> <error>: the spec is rejected; the error text must be identical in every variant)
 #include <math.h>
 #include <stdint.h>
 #include <stdio.h>
@@ -208,7 +209,38 @@ static void run_case(uint64_t seed, unsigned feat, int nbody, int nmesh, int nte
   g_ndiff = 0;
   mjSpec* s = make_spec(seed, feat, nbody, nmesh, ntex, flags);
   mjModel* m1 = mj_compile(s, NULL);
-  if (!m1) { printf("NOTE %s\n", mjs_getError(s)); printf("END NOCOMPILE\n"); mj_deleteSpec(s); return; }
+  if (!m1) {
+    // the compiler rejects the spec: the rejection must be just as deterministic and copy-invariant as a model --
+    // same error text for a second compile, for a deep copy, and with the work queue on and off
+    std::string e0 = mjs_getError(s) ? mjs_getError(s) : "";
+    std::string one = e0.substr(0, e0.find('\n'));
+    { std::string flat0 = e0; for (char& ch : flat0) if (ch == '\n') ch = '|'; printf("NOTE %s\n", flat0.c_str()); }
+    int nbad = 0;
+    auto rej = [&](const char* what, mjSpec* sp) {
+      mjModel* mm = mj_compile(sp, NULL);
+      std::string e = mm ? "(compiled)" : (mjs_getError(sp) ? mjs_getError(sp) : "");
+      int ok = !mm && e == e0;
+      // 2 = same primary error line, only the trailing (captured warning) lines differ
+      int code = ok ? 1 : (!mm && e.substr(0, e.find('\n')) == one ? 2 : 0);
+      if (!ok) nbad++;
+      std::string flat = e; for (char& ch : flat) if (ch == '\n') ch = '|';
+      printf("REJ %s %d %s\n", what, code, ok ? "" : flat.c_str());
+      if (mm) mj_deleteModel(mm);
+    };
+    rej("twice", s);
+    mjSpec* sc = mj_copySpec(s);
+    if (sc) { rej("copyspec", sc); mj_deleteSpec(sc); } else { printf("REJ copyspec 0 mj_copySpec-failed\n"); nbad++; }
+    for (int r = 0; r < reps; r++) for (int ut = 0; ut < 2; ut++) {
+      mjSpec* st = mj_copySpec(s);
+      if (!st) continue;
+      st->compiler.usethread = (mjtBool)ut;
+      rej(ut ? "usethread1" : "usethread0", st);
+      mj_deleteSpec(st);
+    }
+    printf("END %s\n", nbad ? "REJDIFF" : "REJECTED");
+    mj_deleteSpec(s);
+    return;
+  }
   std::vector<unsigned char> ref = save(m1);
   printf("INFO nmesh %d ntex %d nhfield %d nmeshvert %d ntexdata %lld nu %d nq %d bytes %zu usethread %d\n", (int)m1->nmesh, (int)m1->ntex,
          (int)m1->nhfield, (int)m1->nmeshvert, (long long)m1->ntexdata, (int)m1->nu, (int)m1->nq, ref.size(), (int)s->compiler.usethread);
